@@ -59,4 +59,25 @@ PROPS = {
             "transitivity is false in the specification itself (record {f:nat} <: record {} <: record {f:null}); not claimed",
         ],
     },
+    "C02": {
+        "profiles": ["debug"],
+        "rule": "messages: (1) ~55 hand-written hostile headers/values (bad magic, index out of range, unsorted/duplicate ids, non-function methods, future types, uninhabited mu-records, opaque references, "
+                "over-long principals, padded and over-long LEB128, huge counts, trailing bytes) at five expected type sequences, (2) valid messages of random possibly-recursive environments and argument lists, "
+                "encoded by the real encoder, decoded at their own types, with no expected types, at 0-2 random upgrade steps per argument, with a missing / extra optional / extra required argument, at an unrelated type, "
+                "(3) three random byte-level mutations per message (truncate, flip, replace, insert, delete, append, pad a LEB, increment) decoded at the original and at the opt-wrapped types; "
+                "non-trivial = every case except an unchanged mutation; distinct = distinct request lines",
+        "trusted": [
+            "the model is the specification-level decoder Wire.decodeArgs (decode M^-1 at the wire types, then the coercion relation as a function), not a mirror of de.rs; the Rust decoder interleaves the two, every wire byte is validated either way",
+            "limits of the implementation that are part of both sides: type table <= 10000, header/index numbers <= 10 LEB bytes, value lengths <= 9 LEB bytes, principals <= 29 bytes; nesting depth is bounded by a fuel of 600 in the model and by the stack guard in Rust (the generators stay far below both)",
+            "reference types are compared with Sub.subAlg (see C05); binread's derive combinators are modelled by hand",
+            "String.fromUTF8? (Lean core) is the UTF-8 validity oracle",
+        ],
+        "assumptions": [
+            "vector lengths in generated messages are small; a huge vec of zero-sized elements is really iterated by the Rust decoder without a quota (C06/C07 run those metered)",
+            "expected environments never define names of the form table<i> except in the targeted corpus case",
+        ],
+        "partial": [
+            "the headline theorem decode_eq_spec (de.rs = Wire.decodeArgs for all inputs) is not a theorem: de.rs is not modelled line by line; the equality is established by the correspondence. Proved: properties of the specification decoder itself (reserved/null/empty rules, trailing bytes, magic) and, in C03/C10, its round trip with the encoder model",
+        ],
+    },
 }
